@@ -12,6 +12,8 @@ modes:  unparse   -- every module is replaced by ast.unparse(ast.parse(src))
                      result_x'
         noop-first -- a no-op expression statement at the start of every
                      function body
+        annotate  -- the first plain assignment of every local gets a type
+                     annotation (x: "Any" = v)
         fstring   -- '...%s' % x becomes an f-string where that is safe
         swap      -- adjacent independent assignments with call-free
                      right-hand sides change places
@@ -20,7 +22,7 @@ import ast
 import os
 
 MODES = ("unparse", "rename", "rename-some-1", "if-invert", "extract-return",
-         "noop-first", "swap", "fstring")
+         "noop-first", "swap", "fstring", "annotate")
 
 
 class Renamer(ast.NodeTransformer):
@@ -223,6 +225,35 @@ class FStringer(ast.NodeTransformer):
         return ast.JoinedStr(values)
 
 
+class Annotator(ast.NodeTransformer):
+    """x = v  ->  x: "Any" = v   for simple local assignments (local
+    annotations are not evaluated)"""
+
+    def visit_FunctionDef(self, node):
+        self.generic_visit(node)
+        seen = set()
+        declared = set()
+        for n in ast.walk(node):
+            if isinstance(n, (ast.Global, ast.Nonlocal)):
+                declared.update(n.names)
+        for n in ast.walk(node):
+            for fld in ("body", "orelse", "finalbody"):
+                blk = getattr(n, fld, None)
+                if not (isinstance(blk, list) and blk and
+                        isinstance(blk[0], ast.stmt)):
+                    continue
+                for i, st in enumerate(blk):
+                    if isinstance(st, ast.Assign) and len(st.targets) == 1 \
+                            and isinstance(st.targets[0], ast.Name) and \
+                            st.targets[0].id not in seen and \
+                            st.targets[0].id not in declared:
+                        seen.add(st.targets[0].id)
+                        blk[i] = ast.AnnAssign(st.targets[0],
+                                               ast.Constant("Any"),
+                                               st.value, 1)
+        return node
+
+
 def rewrite(mode, tmp):
     root = os.path.join(tmp, "src", "chameleon")
     for dp, dn, fns in os.walk(root):
@@ -241,6 +272,8 @@ def rewrite(mode, tmp):
                 tree = ast.fix_missing_locations(Swapper().visit(tree))
             elif mode == "noop-first":
                 tree = ast.fix_missing_locations(NoopInserter().visit(tree))
+            elif mode == "annotate":
+                tree = ast.fix_missing_locations(Annotator().visit(tree))
             elif mode == "fstring":
                 tree = ast.fix_missing_locations(FStringer().visit(tree))
             elif mode == "if-invert":
